@@ -1,7 +1,7 @@
 //! Line buffer with current cursor position
 use crate::keymap::{At, CharSearch, Movement, RepeatCount, Word};
 use crate::layout::Layout;
-use std::cmp::min;
+use std::cmp::{min, Ordering};
 use std::fmt;
 use std::iter;
 use std::ops::{Deref, Index, Range};
@@ -359,6 +359,24 @@ impl LineBuffer {
         } else {
             false
         }
+    }
+
+    /// Offset of the first grapheme of the current line without white space (vi `^`),
+    /// the end of the line when the line is blank.
+    fn first_print(&self) -> usize {
+        let (start, end) = (self.start_of_line(), self.end_of_line());
+        self.buf[start..end]
+            .grapheme_indices(true)
+            .find(|(_, g)| !g.chars().any(char::is_whitespace))
+            .map_or(end, |(i, _)| start + i)
+    }
+
+    /// Move cursor to the first non-blank character of the line.
+    pub fn move_to_first_print(&mut self) -> bool {
+        let pos = self.first_print();
+        let moved = pos != self.pos;
+        self.pos = pos;
+        moved
     }
 
     /// Move cursor to the end of the line.
@@ -1015,20 +1033,12 @@ impl LineBuffer {
                 }
             }
             Movement::ViFirstPrint => {
-                if self.pos == 0 {
-                    None
-                } else {
-                    // same target as `Cmd::Move(Movement::ViFirstPrint)`
-                    let first = if self.buf.starts_with(char::is_whitespace) {
-                        self.next_word_pos(0, At::Start, Word::Big, 1)
-                    } else {
-                        Some(0)
-                    };
-                    match first {
-                        Some(pos) if pos < self.pos => Some(self.buf[pos..self.pos].to_owned()),
-                        Some(pos) if pos > self.pos => Some(self.buf[self.pos..pos].to_owned()),
-                        _ => None,
-                    }
+                // same target as `Cmd::Move(Movement::ViFirstPrint)`
+                let first = self.first_print();
+                match first.cmp(&self.pos) {
+                    Ordering::Less => Some(self.buf[first..self.pos].to_owned()),
+                    Ordering::Greater => Some(self.buf[self.pos..first].to_owned()),
+                    Ordering::Equal => None,
                 }
             }
             Movement::EndOfLine => {
@@ -1173,7 +1183,19 @@ impl LineBuffer {
                 }
             }
             Movement::ViFirstPrint => {
-                false // TODO
+                // Kill the text between point and the first non-blank character of the line.
+                let (first, pos) = (self.first_print(), self.pos);
+                match first.cmp(&pos) {
+                    Ordering::Less => {
+                        self.drain(first..pos, Direction::Backward, dl);
+                        self.pos = first;
+                    }
+                    Ordering::Greater => {
+                        self.drain(pos..first, Direction::Forward, dl);
+                    }
+                    Ordering::Equal => {}
+                }
+                first != pos
             }
             Movement::EndOfBuffer => {
                 // Kill the text from point to the end of the buffer.
